@@ -31,8 +31,11 @@ pub enum K {
     ObsPrint,
     Drain,
     ObsPar,
+    SaveSpare,
+    CloneFrom,
+    ObsCapacity,
 }
-pub const NK: usize = 20;
+pub const NK: usize = 23;
 const ALLK: [K; NK] = [
     K::New,
     K::AppendValue,
@@ -54,6 +57,9 @@ const ALLK: [K; NK] = [
     K::ObsPrint,
     K::Drain,
     K::ObsPar,
+    K::SaveSpare,
+    K::CloneFrom,
+    K::ObsCapacity,
 ];
 
 #[derive(Clone, Debug)]
@@ -93,8 +99,8 @@ impl GenCfg {
         // one run in a hundred is large: thresholds on width, depth, node count, free-list length
         let huge = rng.chance(1, 100);
         if huge {
-            max_live = rng.range(80, 300) as usize;
-            steps = rng.range(300, 1200) as usize;
+            max_live = rng.range(80, 400) as usize;
+            steps = rng.range(300, 1500) as usize;
         }
         // shape bias: random attachment alone almost never gives a node 10 children or depth 10
         let shape = match rng.below(10) {
@@ -125,6 +131,9 @@ impl GenCfg {
             (K::ObsPrint, 0),
             (K::Drain, 0),
             (K::ObsPar, 0),
+            (K::SaveSpare, 0),
+            (K::CloneFrom, 0),
+            (K::ObsCapacity, 0),
         ];
         for (k, v) in base {
             w[k as usize] = v;
@@ -134,7 +143,7 @@ impl GenCfg {
         let mut p_boundary = 0;
         let mut p_sink_fail = 0;
         let mut p_io_faults = 0;
-        let mut payload = *rng.pick(&["tracked", "tracked", "tracked", "u8", "wide", "string", "unit", "big"]);
+        let mut payload = *rng.pick(&["tracked", "tracked", "tracked", "u8", "wide", "string", "unit", "big", "opt"]);
         let mut twin = false;
         let mut dense = false;
         let set = |w: &mut [u32; NK], k: K, v: u32| w[k as usize] = v;
@@ -192,6 +201,9 @@ impl GenCfg {
                 set(&mut w, K::Clear, 1);
                 set(&mut w, K::Fork, 1);
                 set(&mut w, K::CycleSlot, 2);
+                set(&mut w, K::SaveSpare, 1);
+                set(&mut w, K::CloneFrom, 1);
+                p_boundary = *rng.pick(&[0, 0, 0, 0, 0, 0, 0, 20]);
             }
             "C09" => {
                 set(&mut w, K::ObsTraverse, 10);
@@ -206,7 +218,7 @@ impl GenCfg {
                 set(&mut w, K::ObsLookup, 10);
                 set(&mut w, K::Reserve, 3);
                 dense = rng.chance(1, 3);
-                payload = *rng.pick(&["tracked", "u8", "wide", "string", "unit", "big"]);
+                payload = *rng.pick(&["tracked", "u8", "wide", "string", "unit", "big", "opt"]);
             }
             "C12" => {
                 set(&mut w, K::Remove, 14);
@@ -223,6 +235,9 @@ impl GenCfg {
                 set(&mut w, K::Reserve, 4);
                 set(&mut w, K::RestartClone, 3);
                 set(&mut w, K::Remove, 10);
+                set(&mut w, K::SaveSpare, 3);
+                set(&mut w, K::CloneFrom, 3);
+                set(&mut w, K::ObsCapacity, 2);
             }
             "C14" => {
                 payload = *rng.pick(&["tracked", "tracked", "tracked", "string", "u8"]);
@@ -238,6 +253,7 @@ impl GenCfg {
                 set(&mut w, K::Clear, 1);
                 p_io_faults = *rng.pick(&[0, 50, 100]);
                 p_boundary = *rng.pick(&[0, 0, 0, 20]);
+                payload = *rng.pick(&["tracked", "u8", "wide", "string", "unit", "big", "opt", "opt", "u8"]);
             }
             _ => {
                 // "MIX": the whole alphabet (C17 battery, determinism self-test)
@@ -251,6 +267,9 @@ impl GenCfg {
                 set(&mut w, K::ObsPrint, 3);
                 set(&mut w, K::Drain, 1);
                 set(&mut w, K::ObsPar, 2);
+                set(&mut w, K::SaveSpare, 1);
+                set(&mut w, K::CloneFrom, 1);
+                set(&mut w, K::ObsCapacity, 1);
                 p_io_faults = 50;
             }
         }
@@ -343,9 +362,37 @@ impl Gen {
         Some(*rng.pick(&live))
     }
 
+    /// a live node; one time in eight (one in three in large runs) the one with most children or
+    /// the root of the biggest / deepest tree, so that removals also hit the big structures
+    fn pick_big(&self, rng: &mut Rng, m: &Model) -> Key {
+        let live = m.live_keys();
+        let often = if self.cfg.max_live >= 80 { 3 } else { 8 };
+        if live.len() >= 4 && rng.chance(1, often) {
+            return match rng.below(3) {
+                0 => live.iter().copied().max_by_key(|k| (m.n(*k).kids.len(), u32::MAX - *k)).unwrap(),
+                1 => {
+                    let d = live.iter().copied().max_by_key(|k| (m.depth(*k), *k)).unwrap();
+                    // somewhere on the path from the deepest node to its root
+                    let mut path = vec![d];
+                    let mut c = d;
+                    while let Some(p) = m.parent(c) {
+                        path.push(p);
+                        c = p;
+                    }
+                    *rng.pick(&path)
+                }
+                _ => {
+                    let roots: Vec<Key> = live.iter().copied().filter(|k| m.parent(*k).is_none()).collect();
+                    *rng.pick(&roots)
+                }
+            };
+        }
+        *rng.pick(&live)
+    }
+
     /// wide: the live node with most children; deep: the deepest live node (3 times out of 4)
     fn shaped_parent(&self, rng: &mut Rng, m: &Model) -> Option<Key> {
-        if m.n_live == 0 || !(self.cfg.shape == 1 || self.cfg.shape == 2) || !rng.chance(3, 4) {
+        if m.n_live == 0 || !(self.cfg.shape == 1 || self.cfg.shape == 2) || !rng.chance(7, 8) {
             return None;
         }
         let live = m.live_keys();
@@ -391,6 +438,12 @@ impl Gen {
                     }
                     by_class[rel_index(classify(m, p, a))].push((p, a));
                 }
+                if m.depth(a) >= 3 {
+                    // a far ancestor: the root of a's tree, and a random node on the way up
+                    let root = m.root_of(a);
+                    by_class[rel_index(classify(m, a, root))].push((a, root));
+                    by_class[rel_index(classify(m, root, a))].push((root, a));
+                }
                 if let Some(n) = m.next(a) {
                     by_class[rel_index(classify(m, a, n))].push((a, n));
                     by_class[rel_index(classify(m, n, a))].push((n, a));
@@ -435,7 +488,7 @@ impl Gen {
         }
         if self.fork_active > 0 {
             self.fork_active -= 1;
-            z(&mut w, &[K::Fork, K::RestartClone, K::RestartSerde, K::Clear]);
+            z(&mut w, &[K::Fork, K::RestartClone, K::RestartSerde, K::Clear, K::CloneFrom]);
         }
         let kind = match rng.weighted(&w) {
             Some(i) => ALLK[i],
@@ -495,9 +548,9 @@ impl Gen {
                 },
                 None => Op::New { k: self.key(), val },
             },
-            K::Detach => Op::Detach { x: self.pick_node(rng, m, false).unwrap() },
-            K::Remove => Op::Remove { x: self.pick_node(rng, m, false).unwrap() },
-            K::RemoveSubtree => Op::RemoveSubtree { x: self.pick_node(rng, m, false).unwrap() },
+            K::Detach => Op::Detach { x: self.pick_big(rng, m) },
+            K::Remove => Op::Remove { x: self.pick_big(rng, m) },
+            K::RemoveSubtree => Op::RemoveSubtree { x: self.pick_big(rng, m) },
             K::SetPayload => Op::SetPayload {
                 x: self.pick_node(rng, m, false).unwrap(),
                 val,
@@ -534,6 +587,12 @@ impl Gen {
                 Op::TreeMacro { shape, root, kbase, val }
             }
             K::RestartClone => Op::RestartClone,
+            K::SaveSpare => Op::SaveSpare,
+            K::CloneFrom => Op::CloneFrom,
+            K::ObsCapacity => Op::ObsCapacity {
+                n: *rng.pick(&[0u32, 1, 2, 31, 32, 33, 126, 127, 128, 129, 255, 256, 257, 1000, 3000]),
+                ty: rng.below(6) as u8,
+            },
             K::RestartSerde => Op::RestartSerde {
                 fmt: rng.below(2) as u8,
                 io: if rng.chance(self.cfg.p_io_faults as u64, 100) { rng.next_u64() | 1 } else { 0 },
@@ -570,7 +629,7 @@ impl Gen {
             K::ObsPrint => Op::ObsPrint {
                 x: self.pick_node(rng, m, false).unwrap(),
                 mode: rng.below(4) as u8,
-                frag: rng.below(5) as u8,
+                frag: rng.below(6) as u8,
                 sink_fail: if rng.chance(self.cfg.p_sink_fail as u64, 100) { Some(rng.range(1, 12) as u32) } else { None },
             },
             K::Drain => Op::Drain,
